@@ -19,7 +19,7 @@ let bytes_of_hex s =
 let hex_of_bytes l =
   if l = [] then "-" else begin
     let b = Buffer.create 16 in
-    Stdlib.List.iter (fun c -> Buffer.add_string b (Printf.sprintf "%02x" (int_of_nat c))) l;
+    Stdlib.List.iter (fun c -> Buffer.add_string b (Stdlib.Printf.sprintf "%02x" (int_of_nat c))) l;
     Buffer.contents b end
 let split_on c s = if s = "" then [] else String.split_on_char c s
 let chunks_of s = if s = "-" then [] else Stdlib.List.map bytes_of_hex (split_on ',' s)
@@ -82,7 +82,7 @@ let handle_xnorm words =
     let oi s = if s = "-" then None else Some (nat_of_int (int_of_string s)) in
     let ((n', l'), r') = XReplace.normalize (opt_n n) (opt_n l) (r = "1") (oi i_n) (oi i_l) (oi i_r) in
     let sh = function None -> "-" | Some v -> string_of_int (int_of_n v) in
-    Printf.sprintf "%s %s %d" (sh n') (sh l') (if r' then 1 else 0)
+    Stdlib.Printf.sprintf "%s %s %d" (sh n') (sh l') (if r' then 1 else 0)
   | _ -> "badcase"
 
 (* ---- walk mind maxd post prune(ids or ~; r = root) tree ----
@@ -125,7 +125,7 @@ let handle_walk words =
     let evs = Walk.walk c p (parse_tree tree) in
     if evs = [] then "~" else
     String.concat " " (Stdlib.List.map (function
-        | Walk.Ent (rp, d, b) -> Printf.sprintf "E%s:%d:%d" (show_path rp) (int_of_nat d) (if b then 1 else 0)
+        | Walk.Ent (rp, d, b) -> Stdlib.Printf.sprintf "E%s:%d:%d" (show_path rp) (int_of_nat d) (if b then 1 else 0)
         | Walk.Err rp -> "X" ^ show_path rp) evs)
   | _ -> "badcase"
 
@@ -301,7 +301,7 @@ let handle_entry words =
     let c = match cfg with "P" -> Entry.Never | "H" -> Entry.Roots | _ -> Entry.Always in
     let d = nat_of_int (int_of_string depth) in
     let show = function None -> "none" | Some r -> if int_of_n r.Entry.st_ino = 1 then "lstat" else "stat" in
-    Printf.sprintf "%s %s %d" (show (Entry.seen c d v)) (show (Entry.seen_xtype c d v)) (if Entry.lname_applies c d v then 1 else 0)
+    Stdlib.Printf.sprintf "%s %s %d" (show (Entry.seen c d v)) (show (Entry.seen_xtype c d v)) (if Entry.lname_applies c d v then 1 else 0)
   | _ -> "badcase"
 
 (* ---- regex ci ast subjects : ast in prefix form, tokens separated by ','.
@@ -334,8 +334,29 @@ let handle_regex words =
     String.concat "" (Stdlib.List.map (fun s -> if Regex.matches r (cps s) then "1" else "0") (list_of subjects))
   | _ -> "badcase"
 
+(* ---- printf <timeok letters cps|-> <fmt cps> <values: letter:cps;letter:cps...|~> -> "ok <cps>" | "err" ---- *)
+let handle_printf words =
+  match words with
+  | [timeok; fmt; values] ->
+    let tok = Stdlib.List.map int_of_nat (cps timeok) in
+    let tbl = Stdlib.List.map (fun kv -> match split_on ':' kv with
+        | [k; v] -> (int_of_string k, cps v) | [k] -> (int_of_string k, []) | _ -> failwith "value") (if values = "~" then [] else split_on ';' values) in
+    let value d = match Stdlib.List.assoc_opt (int_of_nat d) tbl with Some v -> v | None -> [] in
+    (match Printf.run_printf (fun c -> Stdlib.List.mem (int_of_nat c) tok) value (cps fmt) with
+     | Printf.Ok out -> "ok " ^ show_cps out
+     | Printf.Err -> "err")
+  | _ -> "badcase"
+let handle_pv words =
+  match words with
+  | [path; depth] ->
+    let p = bytes_of_hex path in
+    let d = nat_of_int (int_of_string depth) in
+    let o = function None -> "none" | Some x -> hex_of_bytes x in
+    String.concat " " [hex_of_bytes (PrintfValue.pv_f p); hex_of_bytes (PrintfValue.pv_h p); o (PrintfValue.pv_H p d); o (PrintfValue.pv_P p d)]
+  | _ -> "badcase"
+
 let handlers : (string * (string list -> string)) list ref =
-  ref [ ("xread", handle_xread); ("xargs", handle_xargs); ("xrepl", handle_xrepl); ("xnorm", handle_xnorm); ("walk", handle_walk); ("expr", handle_expr); ("num", handle_num); ("glob", handle_glob); ("paths", handle_paths); ("delete", handle_delete); ("execm", handle_execm); ("limits", handle_limits); ("entry", handle_entry); ("regex", handle_regex) ]
+  ref [ ("xread", handle_xread); ("xargs", handle_xargs); ("xrepl", handle_xrepl); ("xnorm", handle_xnorm); ("walk", handle_walk); ("expr", handle_expr); ("num", handle_num); ("glob", handle_glob); ("paths", handle_paths); ("delete", handle_delete); ("execm", handle_execm); ("limits", handle_limits); ("entry", handle_entry); ("regex", handle_regex); ("printf", handle_printf); ("pv", handle_pv) ]
 
 let () =
   try while true do
